@@ -877,6 +877,10 @@ func exec(toks []string) (string, string) {
 		return bad()
 	}
 	switch toks[0] {
+	case "fact":
+		if len(toks) == 2 {
+			return opFact(toks[1])
+		}
 	case "realm":
 		if a, ok := unhexAll(toks[1:]); ok && len(a) == 1 {
 			return opRealm(a[0])
